@@ -48,6 +48,8 @@ type Gen struct {
 	modDirty    bool
 	funcSet     map[*ssa.Function]bool
 	ctCache     map[*ssa.Function]ctEntry
+	mapNonNil   map[string][]string
+	boxNonNil   map[string][]string
 }
 
 type loopStmt struct {
@@ -265,6 +267,9 @@ func (g *Gen) findGlobal(pkg *types.Package, name string) *ssa.Global {
 }
 
 func (g *Gen) needConcatAxiom(e *Enc) {
+	if e.bv {
+		return // bit-vector mode is used for arithmetic safety only: no quantified string axioms
+	}
 	I := e.INT()
 	e.usesQuant = true
 	e.axiom(fmt.Sprintf("(forall ((a Str) (b Str) (i %s)) (! (= (sbyte (sconcat a b) i) (ite %s (sbyte a i) (sbyte b %s))) :pattern ((sbyte (sconcat a b) i))))",
@@ -272,6 +277,9 @@ func (g *Gen) needConcatAxiom(e *Enc) {
 }
 
 func (g *Gen) needSubstrAxiom(e *Enc) {
+	if e.bv {
+		return
+	}
 	I := e.INT()
 	e.usesQuant = true
 	e.axiom(fmt.Sprintf("(forall ((s Str) (lo %s) (hi %s) (i %s)) (! (= (sbyte (ssub s lo hi) i) (sbyte s %s)) :pattern ((sbyte (ssub s lo hi) i))))",
@@ -309,7 +317,7 @@ func (g *Gen) newFuncGen(fn *ssa.Function, ct *Contract, props []string) *FuncGe
 	fg := &FuncGen{g: g, enc: newEnc(bv), fn: fn, ct: ct, vals: map[ssa.Value]Val{}, comps: map[string]*Comp{},
 		ghostSort: map[string]string{}, ghostInits: map[string]string{}, paramVals: map[string]Val{}, ordinals: map[string]int{},
 		noteSeen: map[string]bool{}, iterCells: map[*ssa.Range]string{}, callCount: map[string]int{}, nilChecked: map[string]bool{},
-		constLen: map[string]int{}, blockOrder: map[*ssa.BasicBlock]int{}, invAssumed: map[string]bool{}, invTouched: map[string]touched{}}
+		constLen: map[string]int{}, blockOrder: map[*ssa.BasicBlock]int{}, invAssumed: map[string]bool{}, invTouched: map[string]touched{}, dirty: map[string]bool{}}
 	fg.props = props
 	return fg
 }
@@ -332,6 +340,7 @@ func main() {
 	funcsF := flag.String("funcs", "", "only functions whose display name contains this")
 	dump := flag.Bool("dump", false, "print SSA of selected functions")
 	frameF := flag.Bool("frames", false, "print inferred frames of selected functions")
+	noSlice := flag.Bool("noslice", false, "write full (unsliced) queries")
 	flag.Parse()
 	if *out == "" {
 		fmt.Fprintln(os.Stderr, "need -out")
@@ -374,10 +383,8 @@ func main() {
 			if sw.Pkg != fn.Pkg.Pkg.Path() {
 				continue
 			}
-			for _, n := range sw.Names {
-				if n == "*" || n == methodKey(fn) {
-					props = append(props, sw.Props...)
-				}
+			if sweepMatch(sw, methodKey(fn)) {
+				props = append(props, sw.Props...)
 			}
 		}
 		props = uniq(props)
@@ -421,10 +428,8 @@ func main() {
 				if sw.Pkg != j.fn.Pkg.Pkg.Path() {
 					continue
 				}
-				for _, nme := range sw.Names {
-					if nme == "*" || nme == methodKey(j.fn) {
-						sp = append(sp, sw.Props...)
-					}
+				if sweepMatch(sw, methodKey(j.fn)) {
+					sp = append(sp, sw.Props...)
 				}
 			}
 			if len(sp) > 0 {
@@ -452,6 +457,8 @@ func main() {
 			idx.Notes[funcDisplayName(j.fn)] = fg.notes
 		}
 		pre := fg.enc.prelude()
+		var infos, axInfos []assertInfo
+		var declared map[string]bool
 		fx := map[string]any{"type_ids": fg.enc.typeOrder, "str_consts": fg.enc.strByName(), "intmode": map[bool]string{true: "bv64", false: "math"}[fg.enc.bv]}
 		idx.Extra[funcDisplayName(j.fn)] = fx
 		for _, o := range fg.obls {
@@ -467,16 +474,25 @@ func main() {
 				}
 			}
 			o.Quant = fg.enc.usesQuant
-			var head strings.Builder
-			head.WriteString("; " + o.Name + "\n")
-			head.WriteString(pre)
-			for _, a := range fg.asserts[:o.Prefix] {
-				head.WriteString("(assert " + a + ")\n")
-			}
 			goals := []string{o.Goal}
 			if len(o.Parts) > 1 && !o.ExpectSat {
 				goals = nil
-				for _, p := range o.Parts {
+				parts := o.Parts
+				const maxParts = 10
+				if len(parts) > maxParts {
+					// group the conjuncts into at most maxParts chunks
+					var grouped []string
+					per := (len(parts) + maxParts - 1) / maxParts
+					for i := 0; i < len(parts); i += per {
+						j := i + per
+						if j > len(parts) {
+							j = len(parts)
+						}
+						grouped = append(grouped, and(parts[i:j]...))
+					}
+					parts = grouped
+				}
+				for _, p := range parts {
 					goals = append(goals, and(o.Cond, not(p)))
 				}
 			}
@@ -484,7 +500,35 @@ func main() {
 				n++
 				f := fmt.Sprintf("o%05d.smt2", n)
 				o.Files = append(o.Files, f)
-				os.WriteFile(filepath.Join(*out, f), []byte(head.String()+"(assert "+gl+")\n(check-sat)\n(get-model)\n"), 0o644)
+				var b strings.Builder
+				b.WriteString("; " + o.Name + "\n")
+				if *noSlice || o.ExpectSat {
+					b.WriteString(pre)
+					for _, a := range fg.asserts[:o.Prefix] {
+						b.WriteString("(assert " + a + ")\n")
+					}
+				} else {
+					if infos == nil {
+						declared = fg.enc.declaredNames()
+						for _, a := range fg.asserts {
+							infos = append(infos, analyseAssert(a, declared))
+						}
+						for _, a := range fg.enc.preludeAsserts() {
+							axInfos = append(axInfos, analyseAssert(a, declared))
+						}
+					}
+					// axioms / string facts take part in the cone computation as ordinary assertions
+					all := append(append([]assertInfo{}, axInfos...), infos[:o.Prefix]...)
+					inc := sliceFor(all, len(all), symbolsOf(gl, declared))
+					b.WriteString(fg.enc.preludeDecls())
+					for i, ai := range all {
+						if inc[i] {
+							b.WriteString("(assert " + ai.text + ")\n")
+						}
+					}
+				}
+				b.WriteString("(assert " + gl + ")\n(check-sat)\n(get-model)\n")
+				os.WriteFile(filepath.Join(*out, f), []byte(b.String()), 0o644)
 			}
 			o.File = o.Files[0]
 			idx.Obligations = append(idx.Obligations, o)
@@ -574,6 +618,25 @@ func load(repo string) (*Gen, error) {
 			if strings.HasSuffix(p.CompiledGoFiles[i], "_verif.go") {
 				g.cs.readFile(g.fset, f, p.PkgPath, p.Name)
 			}
+		}
+	}
+	g.cs.resolveLikes()
+	g.mapNonNil = map[string][]string{}
+	g.boxNonNil = map[string][]string{}
+	for _, ti := range g.cs.TypeInvs {
+		t := g.resolveType(ti.Type, g.pkgByPath(ti.Pkg))
+		if t == nil {
+			g.bindErrors = append(g.bindErrors, "typeinv: unknown type "+ti.Type)
+			continue
+		}
+		ps := ti.Props
+		if ps == nil {
+			ps = []string{}
+		}
+		if ti.Kind == "mapvalues" {
+			g.mapNonNil[typeKey(t)] = ps
+		} else {
+			g.boxNonNil[typeKey(t)] = ps
 		}
 	}
 	g.bindErrors = append(g.bindErrors, g.cs.Errors...)
@@ -709,4 +772,21 @@ func (g *Gen) bindContracts(idx *outIndex) {
 			}
 		}
 	}
+}
+
+// sweepMatch: names are globs (path.Match syntax); a leading '-' excludes.
+func sweepMatch(sw *Sweep, name string) bool {
+	hit := false
+	for _, n := range sw.Names {
+		neg := strings.HasPrefix(n, "-")
+		pat := strings.TrimPrefix(n, "-")
+		ok, _ := filepath.Match(pat, name)
+		if pat == "*" {
+			ok = true
+		}
+		if ok {
+			hit = !neg
+		}
+	}
+	return hit
 }
